@@ -43,5 +43,5 @@ Print Assumptions c01w_wstep_uid_kept.
 (* the classes, spelled out *)
 Theorem c01w_sess_nodrop_reading : forall e,
   sess_nodrop e <-> match e with Put _ _ => True | Del k => k <> k_uid | DelAll _ => False end.
-Proof. intros e. reflexivity. Qed.
+Proof. exact sess_nodrop_reading. Qed.
 Print Assumptions c01w_sess_nodrop_reading.
